@@ -135,14 +135,30 @@ struct ActivityContext<'a> {
 
 fn match_place(single: &Arc<Single>, is_job_activity: bool, activity_ctx: &ActivityContext) -> Option<Place> {
     let job_id = get_job_id(single);
-    let job_tag =
-        get_job_tag(single, (activity_ctx.location, (activity_ctx.time.clone(), activity_ctx.route_start_time)));
+
+    let is_matched_place = |place: &vrp_core::models::problem::Place| {
+        let is_same_location = place.location.is_none_or(|l| l == activity_ctx.location);
+        let is_proper_time =
+            place.times.iter().any(|time| time.intersects(activity_ctx.route_start_time, &activity_ctx.time));
+
+        is_same_location && is_proper_time
+    };
+
+    // NOTE: alternative places can match the same activity by location and time, so the place is identified by its tag
+    let get_place_tag = |place_idx: usize| {
+        single.dimens.get_place_tags().and_then(|tags| tags.iter().find(|(idx, _)| *idx == place_idx)).map(|(_, tag)| tag)
+    };
+    let is_same_tag = |place_idx: usize| get_place_tag(place_idx) == activity_ctx.tag;
 
     let is_same_ids = *activity_ctx.job_id == job_id;
-    let is_same_tags = match (job_tag, activity_ctx.tag) {
-        (Some(job_tag), Some(activity_tag)) => job_tag == activity_tag,
-        (None, None) => true,
-        _ => false,
+    let is_same_tags = match activity_ctx.tag {
+        Some(_) => {
+            single.places.iter().enumerate().any(|(idx, place)| get_place_tag(idx).is_some() && is_same_tag(idx) && is_matched_place(place))
+        }
+        None => {
+            get_job_tag(single, (activity_ctx.location, (activity_ctx.time.clone(), activity_ctx.route_start_time)))
+                .is_none()
+        }
     };
 
     match (is_same_tags, is_same_ids, is_job_activity) {
@@ -151,13 +167,7 @@ fn match_place(single: &Arc<Single>, is_job_activity: bool, activity_ctx: &Activ
             .places
             .iter()
             .enumerate()
-            .find(|(_, place)| {
-                let is_same_location = place.location.is_none_or(|l| l == activity_ctx.location);
-                let is_proper_time =
-                    place.times.iter().any(|time| time.intersects(activity_ctx.route_start_time, &activity_ctx.time));
-
-                is_same_location && is_proper_time
-            })
+            .find(|(idx, place)| is_matched_place(place) && (activity_ctx.tag.is_none() || is_same_tag(*idx)))
             .map(|(idx, place)| {
                 // NOTE search for the latest occurrence assuming that times are sorted
                 let time = place
@@ -203,22 +213,24 @@ pub(crate) fn get_extra_time(stop: &PointStop, activity: &FormatActivity, place:
 pub(super) fn get_job_tag(single: &Single, place: (Location, (TimeWindow, Timestamp))) -> Option<&String> {
     let (location, (time_window, start_time)) = place;
     single.dimens.get_place_tags().map(|tags| (tags, &single.places)).and_then(|(tags, places)| {
-        tags.iter()
-            .find(|(place_idx, _)| {
-                let place = places.get(*place_idx).expect("invalid tag place index");
+        let find_tag = |is_time_match: &dyn Fn(&TimeWindow) -> bool| {
+            tags.iter()
+                .find(|(place_idx, _)| {
+                    let place = places.get(*place_idx).expect("invalid tag place index");
 
-                let is_correct_location = place.location.is_none_or(|l| location == l);
-                let is_correct_time = place
-                    .times
-                    .iter()
-                    .map(|time| time.to_time_window(start_time))
-                    .any(|time| time.intersects(&time_window));
+                    let is_correct_location = place.location.is_none_or(|l| location == l);
+                    let is_correct_time =
+                        place.times.iter().map(|time| time.to_time_window(start_time)).any(|time| is_time_match(&time));
 
-                // TODO check duration too?
+                    // TODO check duration too?
 
-                is_correct_location && is_correct_time
-            })
-            .map(|(_, tag)| tag)
+                    is_correct_location && is_correct_time
+                })
+                .map(|(_, tag)| tag)
+        };
+
+        // NOTE: time windows of alternative places can intersect, so prefer the place which has exactly the given one
+        find_tag(&|time| *time == time_window).or_else(|| find_tag(&|time| time.intersects(&time_window)))
     })
 }
 
